@@ -52,9 +52,9 @@ AttrValueOf(m, t) ==
                   IN IF hit = {} THEN <<-1>> ELSE as[CHOOSE i \in hit : TRUE].v
 CheckComm(r) ==
    r.kind = "comm" =>
-      /\ Ck("C17", r, "C17.rendered", r.decoded, r.diff)
+      /\ Ck("C17", r, "C17.rendered", r.cls # "raw" => r.decoded, r.diff)
       /\ Ck("C17", r, "C17.accepted", r.decoded => r.accepted, r.diff)
-      /\ Ck("C17", r, "C17.octets", r.accepted => (WfUpdate(r.bin, TRUE) /\ SameExt(AttrValueOf(r.bin, r.sub), r.ref)), r.text)
+      /\ Ck("C17", r, "C17.octets", r.accepted => (WfUpdate(r.bin, TRUE) /\ (r.cls # "raw" => SameExt(AttrValueOf(r.bin, r.sub), r.ref))), r.text)
       /\ Ck("C17", r, "C17.sametext", r.accepted => r.text2_same, r.diff)
       /\ Ck("C17", r, "C17.sent", r.accepted => (r.sent_ok /\ r.wire = r.bin /\ r.exc = 0), r.text)
 \* multiprotocol families (C07, C08)
